@@ -84,6 +84,10 @@ type Config struct {
 	// LastRootHeightUpdated is what Controller.LoadCommitteeData answers (the root height of the committee\'s last update):
 	// legal values are <= the root height; a lock certificate older than it is stale
 	LastRootHeightUpdated uint64
+	// CommitteeOrder: the validator list the controller answers for a root height, as a permutation of 0..N-1 (absent =
+	// identity). Same members, same stakes — a committee-preserving update as far as the property is concerned — but the
+	// signer bitmap of a certificate only means something under the committee of the certificate\'s own root height.
+	CommitteeOrder map[uint64][]int
 }
 
 type Sim struct {
@@ -105,6 +109,8 @@ type Sim struct {
 	Certs   []*lib.QuorumCertificate
 	certKey map[string]bool
 	props   *lib.Proposers
+	valSets map[uint64]lib.ValidatorSet
+	vsMu    sync.Mutex
 	blockNo int
 	mu      sync.Mutex
 	// counters
@@ -174,7 +180,7 @@ func New(cfg Config) *Sim {
 		if e != nil {
 			panic(e)
 		}
-		b.ValidatorSet, b.CommitteeData = vs, &lib.CommitteeData{LastRootHeightUpdated: cfg.LastRootHeightUpdated}
+		b.ValidatorSet, b.CommitteeData = s.ValSetAt(cfg.Root0), &lib.CommitteeData{LastRootHeightUpdated: cfg.LastRootHeightUpdated}
 		b.Phase = bft.Election // lib.Phase has UNKNOWN = 0
 		n.B = b
 		s.Nodes = append(s.Nodes, n)
@@ -192,6 +198,32 @@ func (s *Sim) SetSalt(salt uint64) {
 
 func (s *Sim) Total() uint64 { return s.ValSet.TotalPower }
 
+// ValSetAt is the committee the controller loads for a root height.
+func (s *Sim) ValSetAt(root uint64) lib.ValidatorSet {
+	order, ok := s.Cfg.CommitteeOrder[root]
+	if !ok {
+		return s.ValSet
+	}
+	s.vsMu.Lock()
+	defer s.vsMu.Unlock()
+	if vs, ok := s.valSets[root]; ok {
+		return vs
+	}
+	vals := &lib.ConsensusValidators{}
+	for _, i := range order {
+		vals.ValidatorSet = append(vals.ValidatorSet, s.ValSet.ValidatorSet.ValidatorSet[i])
+	}
+	vs, err := lib.NewValidatorSet(vals)
+	if err != nil {
+		panic(err)
+	}
+	if s.valSets == nil {
+		s.valSets = map[uint64]lib.ValidatorSet{}
+	}
+	s.valSets[root] = vs
+	return vs
+}
+
 func (s *Sim) idxOf(pub []byte) int {
 	for i, p := range s.Pubs {
 		if bytes.Equal(p, pub) {
@@ -206,7 +238,7 @@ func (s *Sim) FallbackLeader(root, round uint64) int {
 	pk := lib.WeightedPseudorandom(&lib.PseudorandomParams{
 		SortitionData: &lib.SortitionData{LastProposerAddresses: s.props.Addresses, RootHeight: root, Height: Height, Round: round,
 			TotalValidators: s.ValSet.NumValidators, TotalPower: s.ValSet.TotalPower},
-		ValidatorSet: s.ValSet.ValidatorSet,
+		ValidatorSet: s.ValSetAt(root).ValidatorSet,
 	})
 	return s.idxOf(pk.Bytes())
 }
@@ -339,7 +371,7 @@ func (n *Node) SelfSendBlock(qc *lib.QuorumCertificate, _ uint64) {
 	c.Accepted, c.Reason = true, ""
 	if err := qc.CheckBasic(); err != nil {
 		c.Accepted, c.Reason = false, "basic"
-	} else if partial, err := qc.Check(s.ValSet, lib.GlobalMaxBlockSize, &lib.View{NetworkId: n.B.NetworkId, ChainId: n.B.ChainId}, false); err != nil {
+	} else if partial, err := qc.Check(s.ValSetAt(qc.Header.RootHeight), lib.GlobalMaxBlockSize, &lib.View{NetworkId: n.B.NetworkId, ChainId: n.B.ChainId}, false); err != nil {
 		c.Accepted, c.Reason = false, "check"
 	} else if partial {
 		c.Accepted, c.Reason = false, "nomaj23"
@@ -393,7 +425,9 @@ func (n *Node) ResetFSM()                                       {}
 func (n *Node) SendCertificateResultsTx(*lib.QuorumCertificate) {}
 
 // LoadCommittee: the committee-preserving root chain of the property — the same set at every root height.
-func (n *Node) LoadCommittee(_, _ uint64) (lib.ValidatorSet, lib.ErrorI) { return n.sim.ValSet, nil }
+func (n *Node) LoadCommittee(_, rootHeight uint64) (lib.ValidatorSet, lib.ErrorI) {
+	return n.sim.ValSetAt(rootHeight), nil
+}
 func (n *Node) LoadCommitteeData() (*lib.CommitteeData, lib.ErrorI) {
 	return &lib.CommitteeData{LastRootHeightUpdated: n.sim.Cfg.LastRootHeightUpdated}, nil
 }
@@ -570,7 +604,7 @@ func (s *Sim) CertDesc(qc *lib.QuorumCertificate) string {
 	}
 	signers := "-"
 	if qc.Signature != nil {
-		if pubs, _, err := qc.Signature.GetSigners(s.ValSet); err == nil && len(pubs) > 0 {
+		if pubs, _, err := qc.Signature.GetSigners(s.ValSetAt(qc.Header.RootHeight)); err == nil && len(pubs) > 0 {
 			var ids []string
 			for _, p := range pubs {
 				ids = append(ids, fmt.Sprint(s.idxOf(p)))
